@@ -72,7 +72,7 @@ class C07(Check):
     )
     assumptions = ["a reopen is preceded by a flush (records never flushed before the writer is dropped are not 'submitted so far' at any flush)"]
     required_labels = ["failed-then-success", "write_block-with-pending", "reopens>=2", "append-after-empty-flush", "family:empty", "family:rec", "family:flt", "stream:file", "validator:on", "validator:off", "auto-dump"]
-    quick = (300, 1)
+    quick = (1200, 1)
     thorough = (1500, 16)
 
     def selftest(self):
